@@ -194,6 +194,9 @@ def export_cell(cell, enc='ekern', keep=None, to_agnostic=None):
 
 def _agnostic_note(n, keep, decs, basic, to_agnostic, ts=TS, dsep=DS):
     """Agnostic encodings fuse pitch+accidental into one converted part placed after the durations."""
+    if not keep('PITCH'):
+        # nothing to convert: the remaining parts are written as in the non-agnostic encodings
+        return n.basic(keep, ts) if basic else n.ekern(keep, decs, ts, dsep)
     durs = [t for t, c in n.pd_parts() if c == 'DURATION' and keep(c)]
     pa = ''.join(t for t, c in n.pd_parts() if c in ('PITCH', 'ALTERATION') and keep(c))
     parts = list(durs)
